@@ -44,6 +44,29 @@ Fixpoint read {V : Type} (m : store V) (k : str) : option V :=
 Definition write_all {V : Type} (m0 : store V) (order : list (str * V)) : store V :=
   fold_left (fun m kv => kv :: m) order m0.
 
+(* ------------------------------------------------------------------ schema R: memoised resolution *)
+(* `for k in map.keys() { if let Some(v) = resolve(k, &mut cache) { cache.insert(k, v) } }`
+   (emit_program: static-str consts).  The resolver may LOOK AT the memo; the site is order-free only
+   if its answer does not depend on what is already memoised. *)
+Definition memo_all {V : Type} (f : store V -> str -> option V) (order : list str) : store V :=
+  fold_left (fun m k => match f m k with Some v => (k, v) :: m | None => m end) order [].
+
+(* a resolver with a recursion limit: follows `parent` links, answers from the memo when it can, gives
+   up when the fuel is exhausted (the shape of a depth-capped resolve_static_str_const) *)
+Fixpoint resolve_bounded (fuel : nat) (parent : str -> option str) (cache : store str) (k : str) : option str :=
+  match read cache k with
+  | Some v => Some v
+  | None =>
+    match fuel with
+    | O => None
+    | S f =>
+      match parent k with
+      | None => Some k
+      | Some p => match resolve_bounded f parent cache p with Some v => Some (v ++ k) | None => None end
+      end
+    end
+  end.
+
 (* ------------------------------------------------------------------ site: generate_cargo_toml (project.rs) *)
 (* entries collected from the HashMap, sorted by crate name, then written (C15.Model.rust_deps) *)
 Definition with_crates (g : gen) (order : list (str * option str)) : gen :=
